@@ -23,7 +23,30 @@ def field_key(prog, f, k, field):
 
 
 def post_dominated_by_store(f, am, start_inst, want_key, prog):
-    """every path from start_inst to a return passes a store of null to the location `want_key`."""
+    """every path from start_inst to a return passes a store of null to the location `want_key` - or the
+    location was already set to null before start_inst on every path and is not written again (an owner that
+    detaches the pointer first and releases the block afterwards)."""
+    ok, st = _post_dominated(f, am, start_inst, want_key, prog)
+    if ok:
+        return ok, st
+    nulls, others = [], []
+    for i in f.all_insts():
+        if i["op"] == "store":
+            a = am.of(i["ops"][1])
+            if a is not None and akey(a) == want_key:
+                (nulls if i["ops"][0][0] == "n" else others).append(i)
+    dom = [i for i in nulls if f.inst_dominates(i["id"], start_inst["id"])]
+    if dom:
+        d = dom[-1]
+        # no other store to the field can come between the detaching store and a return
+        late = [o for o in others if f.bb_of[o["id"]] in f.reachable_from(f.bb_of[d["id"]]) or
+                (f.bb_of[o["id"]] == f.bb_of[d["id"]] and not f.inst_dominates(o["id"], d["id"]))]
+        if not late:
+            return True, d
+    return False, None
+
+
+def _post_dominated(f, am, start_inst, want_key, prog):
     targets = []
     for i in f.all_insts():
         if i["op"] == "store" and i["ops"][0][0] == "n":
